@@ -25,6 +25,22 @@ type Item struct {
 	Err     bool   // the error was non-nil
 	ErrText string // its text (never part of equality)
 	Text    string // canonical rendering of the value (semantic equality is string equality)
+	// Late renders the very value the library yielded once more, whenever it is
+	// called: a consumer that kept the record sees this, not Text, if the library
+	// went on writing into memory the record shares (nil for error items).
+	Late func() string `json:"-"`
+}
+
+// LateKeys renders every item again, now (see Item.Late).
+func LateKeys(items []Item) []string {
+	out := make([]string, len(items))
+	for i, it := range items {
+		out[i] = it.Key()
+		if !it.Err && it.Late != nil {
+			out[i] = "R " + it.Late()
+		}
+	}
+	return out
 }
 
 // Key is the identity used by oracles: errors compare by non-nil-ness only.
@@ -68,7 +84,7 @@ func adapt[T any](seq iter.Seq2[T, error], conv func(T) string) iter.Seq[Item] {
 			if err != nil {
 				return yield(Item{Err: true, ErrText: err.Error()})
 			}
-			return yield(Item{Text: conv(v)})
+			return yield(Item{Text: conv(v), Late: func() string { return conv(v) }})
 		})
 	}
 }
